@@ -426,5 +426,5 @@ def _all_ops(prog):
 
 def subs(tier):
     q = tier == "quick"
-    return [Sub("histories", None, machine=MachineSpec(C10Machine), examples=50 if q else 1500,
+    return [Sub("histories", None, machine=MachineSpec(C10Machine), examples=90 if q else 1500,
                 steps=25 if q else 50)]
